@@ -85,3 +85,19 @@ reg("C05", "other",
     "for no-data); grow_from_shape's (dimension, index, function, guard) table, the sentinel installation and finalize's "
     "zeroing rule. Not decided: NaN coordinates and the header M range of multipatch/no-data files (excluded by the property); "
     "the induction itself is prose.")
+reg("C07", "other",
+    "taint + interval analysis over abstract paths of the reader call graph (E5); progress rule on the iterators (E3)",
+    "Every overflow/bounds/division check of the dev profile, every panic!/debug_assert!/unwrap and every allocation reachable "
+    "from the reader API is inventoried (one instance per function, operation and operand role) and must be shown in range by "
+    "intervals propagated from the read primitives under the path's guards; iterator item paths must advance a well-founded "
+    "measure; reader loops must be collection-driven or read-driven. The pinned tree has 50 genuine findings (negative counts, "
+    "lengths >= 2^30 doubled in i32, offset differences, a debug_assert on offsets, capacity from negative counts, no progress "
+    "after an error without index), each listed by key in known_findings.jsonl; any new unchecked operation has a new key and "
+    "is reported. Not decided: stack depth, panics inside dbase, allocation failure.")
+reg("C17", "other",
+    "taint + interval analysis of allocation sizes on the reader call graph (E5)",
+    "Decides the structural necessary condition 'no allocation is sized by a count declared in the input without a bound': every "
+    "with_capacity / vec![_; n] on the reader graph must be untainted, constant-bounded or sized by a collection already in "
+    "memory, and every push in a reader loop must be paid for by a read of the same iteration or iterate an in-memory "
+    "collection. 8 genuine findings on the pinned tree (known_findings.jsonl). The 64x multiplier is a runtime quantity and is "
+    "not decided.")
